@@ -3,8 +3,10 @@ package props
 import (
 	"fmt"
 	"math"
+	"reflect"
 	"runtime"
 	"sync"
+	"sync/atomic"
 	"time"
 
 	"gopkg.in/typ.v4/sync2"
@@ -537,6 +539,136 @@ func c04floatValues(c *core.Ctx) bool {
 	return true
 }
 
+// c04anyKeys: a Map with an interface key type against a map[any]int. The nil interface and
+// values of different dynamic types are keys like any other; an unhashable key makes the call
+// panic (a map does too) and leaves the Map as usable as the map is - in every layout.
+// The scenario runs on its own goroutine: a later call that parks for good is a verdict.
+func c04anyKeys(c *core.Ctx) bool {
+	r := c.R
+	var bad [2]string
+	var step atomic.Value
+	step.Store("")
+	var wg sync.WaitGroup
+	wg.Add(1)
+	go func() {
+		defer wg.Done()
+		keys := []any{nil, 1, "1", int64(1), [2]int{1, 2}, 1.5, (*int)(nil), struct{}{}, true, 'x'}
+		unhashable := []any{[]int{1}, map[int]int{}, [1]any{[]int{2}}, struct{ f any }{func() {}}}
+		for layoutKind := 0; layoutKind < 4 && bad[0] == ""; layoutKind++ {
+			var m sync2.Map[any, int]
+			model := map[any]int{}
+			fail := func(sig, msg string) {
+				bad = [2]string{sig, msg + fmt.Sprintf(" [Map[any,int], layout kind %d]", layoutKind)}
+			}
+			store := func(k any, v int) { step.Store(fmt.Sprintf("Store(%#v)", k)); m.Store(k, v); model[k] = v }
+			// layouts: 0 fresh, 1 dirty-only entries, 2 all promoted, 3 promoted + dirty-only + deleted
+			if layoutKind >= 1 {
+				for i, k := range keys[:6] {
+					store(k, i)
+				}
+			}
+			if layoutKind >= 2 {
+				m.Range(func(any, int) bool { return true })
+			}
+			if layoutKind == 3 {
+				store(keys[6], 60)
+				m.Delete(keys[1])
+				delete(model, keys[1])
+			}
+			for i := 0; i < 60 && bad[0] == ""; i++ {
+				k := keys[r.Intn(len(keys))]
+				switch r.Intn(8) {
+				case 0: // an unhashable key: panics like the map, and changes nothing
+					u := unhashable[r.Intn(len(unhashable))]
+					op := r.Intn(5)
+					step.Store(fmt.Sprintf("call %d with unhashable key %T", op, u))
+					p, _ := core.Catch(func() {
+						switch op {
+						case 0:
+							m.Store(u, 1)
+						case 1:
+							m.Load(u)
+						case 2:
+							m.LoadOrStore(u, 1)
+						case 3:
+							m.LoadAndDelete(u)
+						case 4:
+							m.Delete(u)
+						}
+					})
+					if !p {
+						fail("seq:unhashable-key-accepted", fmt.Sprintf("a call (kind %d) with a key of unhashable dynamic type %T did not panic; a map[any]int panics", op, u))
+					}
+					c.Count("seq_any_unhashable_key_calls", 1)
+				case 1, 2:
+					store(k, 100+i)
+				case 3:
+					step.Store(fmt.Sprintf("LoadOrStore(%#v)", k))
+					v, loaded := m.LoadOrStore(k, 200+i)
+					mv, mok := model[k]
+					if !mok {
+						model[k] = 200 + i
+						mv = 200 + i
+					}
+					if loaded != mok || v != mv {
+						fail("seq:LoadOrStore", fmt.Sprintf("LoadOrStore(%#v)=(%d,%v), the map has (%d,%v)", k, v, loaded, mv, mok))
+					}
+				case 4:
+					step.Store(fmt.Sprintf("LoadAndDelete(%#v)", k))
+					v, loaded := m.LoadAndDelete(k)
+					mv, mok := model[k]
+					delete(model, k)
+					if loaded != mok || v != mv {
+						fail("seq:LoadAndDelete", fmt.Sprintf("LoadAndDelete(%#v)=(%d,%v), the map has (%d,%v)", k, v, loaded, mv, mok))
+					}
+				case 5: // a Range stopped early (possibly on an amended Map), then calls that need the mutex
+					step.Store("Range stopped at the first pair")
+					m.Range(func(any, int) bool { return false })
+					nk := fmt.Sprint("new", i)
+					store(nk, i)
+					step.Store("Delete after early-stopped Range")
+					m.Delete(nk)
+					delete(model, nk)
+				case 6:
+					step.Store("Range")
+					seen := map[any]int{}
+					m.Range(func(k any, v int) bool { seen[k] = v; return true })
+					if !reflect.DeepEqual(seen, model) {
+						fail("seq:Range", fmt.Sprintf("Range visits %v, the map holds %v", seen, model))
+					}
+				case 7:
+					step.Store(fmt.Sprintf("Delete(%#v)", k))
+					m.Delete(k)
+					delete(model, k)
+				}
+				for _, k := range keys {
+					step.Store(fmt.Sprintf("Load(%#v)", k))
+					v, ok := m.Load(k)
+					if mv, mok := model[k]; ok != mok || v != mv {
+						fail("seq:Load", fmt.Sprintf("Load(%#v)=(%d,%v), the map has (%d,%v)", k, v, ok, mv, mok))
+						break
+					}
+				}
+				c.Count("seq_any_key_calls", 1)
+			}
+		}
+	}()
+	if st, where := core.WaitOrDeadlock(&wg, 5*time.Second, 100*time.Second); st != "done" {
+		if st == "deadlock" {
+			c.Violate("seq:call-never-returns", fmt.Sprintf("Map[any,int], one goroutine: %s never returns, the goroutine is parked for good (%s); a map[any]int with a mutex would have answered", step.Load(), where), nil)
+		} else {
+			c.Inconclusive("the interface-key scenario did not finish within the watchdog (no deadlock proven)")
+		}
+		return false
+	}
+	if bad[0] != "" {
+		c.Violate(bad[0], bad[1], nil)
+		return false
+	}
+	c.Count("seq_any_key_scenarios", 1)
+	return true
+}
+
 // c04counted: every reader (Load, Range), then exactly 256 / 65536 writes with no read in
 // between (stores to a read-map key, or store+delete pairs of a dirty-only key), one more
 // write, and every reader again.
@@ -588,6 +720,9 @@ func c04seq(c *core.Ctx) {
 		return
 	}
 	if c.Index == 9 && !c04counted(c) {
+		return
+	}
+	if c.Index%200 == 10 && c.Mode != "par" && !c04anyKeys(c) {
 		return
 	}
 	if c.Index < 8 {
